@@ -181,8 +181,54 @@ def spellings():
     return pr
 
 
+def concurrent_schedules():
+    """two threads schedule equal watches; the first is parked inside the emitter constructor.  Equal watches share one
+    emitter, every handler sees each event once, no emitter survives unschedule."""
+    out = []
+    in_ctor, go = threading.Event(), threading.Event()
+    made = []
+
+    class SlowEmitter(ScriptedEmitter):
+        def __init__(self, q, watch, **kw):
+            super().__init__(q, watch, **kw)
+            made.append(self)
+            if len(made) == 1:
+                in_ctor.set()
+                go.wait(3)
+    obs = BaseObserver(SlowEmitter)
+    h1, h2 = H("h1"), H("h2")
+    ws = []
+    a = threading.Thread(target=lambda: ws.append(obs.schedule(h1, "/p", recursive=True)))
+    b = threading.Thread(target=lambda: ws.append(obs.schedule(h2, "/p", recursive=True)))
+    a.start()
+    if not in_ctor.wait(2):
+        return ["first schedule() never reached the emitter constructor"]
+    b.start()
+    b.join(0.3)          # finishes only if schedule() does not hold the registry lock while it creates the emitter
+    go.set()
+    a.join(3)
+    b.join(3)
+    if len(obs.emitters) != 1 or len(made) != 1:
+        out.append(f"two overlapping schedule() calls for equal watches: {len(made)} emitters created, {len(obs.emitters)} registered (equal watches share one emitter)")
+    for em in made:
+        em.queue_event(FileCreatedEvent("/p/x"))
+    while not obs.event_queue.empty():
+        obs.dispatch_events(obs.event_queue)
+    for h in (h1, h2):
+        if len(h.got) != 1:
+            out.append(f"handler {h} received the event {len(h.got)}x")
+    if ws:
+        obs.unschedule(ws[0])
+        if obs.emitters:
+            out.append(f"unschedule() of the watch leaves {len(obs.emitters)} emitter(s) registered")
+    return out
+
+
 def main():
     if REPLAY is not None:
+        if REPLAY.get("kind") == "concurrent":
+            pr = concurrent_schedules()
+            replay_result(bool(pr), pr[:3])
         if REPLAY.get("kind") == "spellings":
             pr = spellings()
             replay_result(bool(pr), pr[:3])
@@ -204,6 +250,10 @@ def main():
         pr = run_seq(seq, True)
         if pr:
             bat.fail("C13.registry-running", pr[0], {"seq": [list(o) for o in seq], "alive": True, "problems": pr[:3]}, "BaseObserver")
+    bat.case("concurrent-schedules")
+    pr = concurrent_schedules()
+    if pr:
+        bat.fail("C13.concurrent-schedule", pr[0], {"kind": "concurrent", "problems": pr[:3]}, "BaseObserver.schedule")
     bat.case("spellings")
     pr = spellings()
     if pr:
